@@ -617,7 +617,13 @@ Proof.
     assert (Hd3 : dB (each_tok g (fun tk x => base_to_evm tk a x) toks) (0 * wamt c toks)).
     { apply dB_each. intros tk x Htk. unfold base_to_evm. eapply dB_eq; [apply (B_cc HB); assumption|lia]. }
     rewrite (V_doB _ _ _ _ Hd3 R3). cbn [sr]. split; [lia|assumption].
-  - destruct (keeps_add_outgoing_bridge_call c rf rf toks to Hr Hr Hpos s2 s' W2 H). split; [lia|assumption].
+  - assert (Hk : keeps ((if a =? rf then ret else doB (each_tok g (fun t x => send a rf (base_of t) x) toks)) ;;
+                        add_outgoing_bridge_call g c rf rf toks to)).
+    { apply keeps_bind; [|apply keeps_add_outgoing_bridge_call; assumption].
+      destruct (a =? rf); [apply keeps_ret|]. apply keeps_doB0.
+      eapply dB_eq; [apply (dB_each (fun t x => send a rf (base_of t) x) 0 c)|lia].
+      intros tk x Htk. eapply dB_eq; [apply (B_send HB); assumption|lia]. }
+    destruct (Hk s2 s' W2 H). split; [lia|assumption].
 Qed.
 
 Lemma keeps_pre_cross_chain tk c a amt fee nat : fromcfg tk -> In a U -> keeps (pre_cross_chain tk c a amt fee nat).
@@ -762,7 +768,7 @@ Ltac blk_unfold :=
   unfold base_to_bridge_token, bridge_token_to_base, deposit_bridge_token, withdraw_bridge_token, conversion_coin,
          convert_coin, convert_erc20, msg_convert_denom, convert_denom_to_target, add_bridge_fee_prog, refund_mint, refund_unlock,
          handler_origin_token, handler_erc20_token, ibc_to_base, base_to_ibc, origin_or_converted.
-Ltac pd_rw := rewrite ?pd_chk, ?pd_chke, ?pdelta_app, ?pd_send, ?pd_mint, ?pd_burn, ?pd_emint, ?pd_eburn, ?pd_etransfer, ?pd_nil.
+Ltac pd_rw := repeat progress (rewrite ?pd_chk, ?pd_chke, ?pdelta_app, ?pd_send, ?pd_mint, ?pd_burn, ?pd_emint, ?pd_eburn, ?pd_etransfer, ?pd_nil).
 (* split the conditionals that select the program's shape *)
 Ltac split_prog :=
   repeat (rewrite ?pd_chk, ?pd_chke, ?pdelta_app;
